@@ -9,6 +9,10 @@ pub struct Budget {
     pub thorough: bool,
 }
 pub fn budget(tier: &str, quick: usize, thorough: usize) -> Budget {
+    if tier == "search" {
+        // the search for a failing input after a broken obligation: several times the quick budget
+        return Budget { mappings: (quick * 6).min(thorough), thorough: false };
+    }
     if tier == "thorough" {
         Budget { mappings: thorough, thorough: true }
     } else {
@@ -18,6 +22,8 @@ pub fn budget(tier: &str, quick: usize, thorough: usize) -> Budget {
 
 fn push_mapping(out: &mut Vec<String>, m: &[u8]) {
     out.push(format!("M {}", hex(m)));
+    // the domain predicate of the cache theorems (dom32 && sizes_ok) is evaluated by the model
+    out.push("DOM".into());
 }
 
 const REP: GenOpts = GenOpts { dom: Dom::Representable, max_classes: 5, noise: true };
